@@ -118,6 +118,10 @@ class Fixture:
         for fn in FN + ['f9']:
             L.append('mixed sco_%s_%s() { return this_object()->%s(); }' % (x, fn, fn))          # constant name: the apply cache is keyed by the name pointer
             L.append('mixed sout_%s_%s() { call_out("%s", 0); return "scheduled"; }' % (x, fn, fn))
+        # a functional that calls an inherited function, re-bound to an unrelated object: the inherited code would run on that
+        # object's variables, so bind() has to refuse it exactly as it refuses a functional with a local call
+        L.append('mixed bsup_%s(string n) { function f; %s if (!f) return "nosuper"; f = bind(f, find_object("/c/caller")); return evaluate(f); }' % (x, ' '.join('if (n == "%s") f = (: ::%s() :);' % (fn, fn) for fn in sup)))
+        L.append('mixed bloc_%s(string n) { function f; %s if (!f) return "nolocal"; f = bind(f, find_object("/c/caller")); return evaluate(f); }' % (x, ' '.join('if (n == "%s") f = (: %s() :);' % (fn, fn) for fn in vis)))
         L.append('mixed hco_%s(string n) { return call_other(this_object(), n); }' % x)
         L.append('mixed hcallout_%s(string n) { call_out(n, 0); return "scheduled"; }' % x)
         L.append('mixed hcmd_%s(string n) { enable_commands(); add_action(n, "v" + n); return "cmd:" + command("v" + n); }' % x)
@@ -138,13 +142,13 @@ def _calls(rng, fx, n, deep=False):
         fn = rng.choice(FN + ['f9'])
         amb = [(o2, f2) for o2 in fx.names for f2 in FN if len(_candidates(fx.progs, o2, f2)) > 1]
         if amb and rng.random() < 0.2: ob, fn = rng.choice(amb)
-        kind = rng.choice(('co', 'co', 'cco', 'cco', 'aco', 'aco', 'self', 'sself', 'local', 'super', 'fp', 'callout', 'scallout', 'cmd', 'reload', 'sco', 'coldsco', 'coldsco', 'saco'))
+        kind = rng.choice(('co', 'co', 'cco', 'cco', 'aco', 'aco', 'self', 'sself', 'local', 'super', 'fp', 'callout', 'scallout', 'cmd', 'reload', 'sco', 'coldsco', 'coldsco', 'saco', 'bindsuper', 'bindlocal'))
         lvl = rng.choice(fx.closure(ob))
         if deep and rng.random() < 0.08 and ob != 'r': kind = 'deep'
         if ob == 'r':
             # the helper functions of a program are gone once it has replaced itself: only plain calls, and helpers of its parents
             lvl = rng.choice(fx.closure(ob)[1:])
-            if kind in ('self', 'sself', 'callout', 'scallout', 'cmd'): kind = rng.choice(('co', 'cco', 'sco', 'coldsco', 'local', 'super', 'fp'))
+            if kind in ('self', 'sself', 'callout', 'scallout', 'cmd', 'bindsuper', 'bindlocal'): kind = rng.choice(('co', 'cco', 'sco', 'coldsco', 'local', 'super', 'fp'))
         if kind in ('aco', 'saco'):
             # array form of call_other (objects, or file names that the driver finds or loads): two to four targets, the interesting one not first
             others = [rng.choice(fx.names) for _ in range(rng.randint(1, 3))]
@@ -181,6 +185,7 @@ def _cycles(call, idx, cold=False):
     if kind == 'local': return [send(0, 'do xco %d %s local_%s %s\r\n' % (idx, tgt, lvl, fn))]
     if kind == 'super': return [send(0, 'do xco %d %s super_%s %s\r\n' % (idx, tgt, lvl, fn))]
     if kind == 'fp': return [send(0, 'do xco %d %s fp_%s %s\r\n' % (idx, tgt, lvl, fn))]
+    if kind in ('bindsuper', 'bindlocal'): return [send(0, 'do xco %d /c/caller setn 0\r\n' % (200000 + idx)), send(0, 'do xco %d %s %s_%s %s\r\n' % (idx, tgt, 'bsup' if kind == 'bindsuper' else 'bloc', lvl, fn))]
     if kind == 'callout': return [send(0, 'do xco %d %s hcallout_%s %s\r\n' % (idx, tgt, ob, fn)), tick(), 'idle']
     if kind == 'cmd': return [send(0, 'do xco %d %s hcmd_%s %s\r\n' % (idx, tgt, ob, fn))]
     if kind == 'reload': return [send(0, 'do xreload %s;xco %d %s %s\r\n' % ('/c/' + lvl, idx, tgt, fn))]
@@ -355,6 +360,13 @@ def check_base(plan, res):
             v.append(Violation(PROP, 'resolver', 'call %s returned %s and ran %s; the rules say %s running %s' % (c, o['r'], o['f'], r, fs), PROP + '/resolver/%s/%s' % (c[0], vis)))
         elif what == 'f' and o['f'] != fs:
             v.append(Violation(PROP, 'resolver', 'call %s ran %s; the rules say %s' % (c, o['f'], fs), PROP + '/resolver/%s/driver-origin' % c[0]))
+    # functionals that call a local or inherited function must not be re-bound to another object
+    for k, c in enumerate(plan.meta['calls']):
+        o = out.get(k)
+        if o is None or c[0] not in ('bindsuper', 'bindlocal'): continue
+        if o['f'] or not ((o['r'] or '').startswith('err:') or o['r'] in ('nosuper', 'nolocal', 'int:0')):      # int:0 = the helper itself is not callable from outside (private inherit)
+            v.append(Violation(PROP, 'bind', 'call %s: a functional calling %s function %s was bound to /c/caller and evaluated there: returned %s, ran %s' % (c, 'an inherited' if c[0] == 'bindsuper' else 'a local', c[3], o['r'], o['f']),
+                               PROP + '/foreign-variables/' + c[0]))
     # the compiled (local) call in the object's own program and the run-time lookup by name must reach the same public function
     by = {}
     for k, c in enumerate(plan.meta['calls']):
